@@ -115,7 +115,8 @@ OV_OLLAMA = {
 }
 OV_LLAMA = {"runner/llamarunner/zz_verif_c14_test.go": "runner_llamarunner/zz_verif_c14_test.go",
             "runner/llamarunner/zz_verif_c14_loop_test.go": "runner_llamarunner/zz_verif_c14_loop_test.go",
-            "runner/llamarunner/zz_verif_c14_llhandler_test.go": "runner_llamarunner/zz_verif_c14_llhandler_test.go"}
+            "runner/llamarunner/zz_verif_c14_llhandler_test.go": "runner_llamarunner/zz_verif_c14_llhandler_test.go",
+            "runner/llamarunner/zz_verif_c14_llmulti_test.go": "runner_llamarunner/zz_verif_c14_llmulti_test.go"}
 
 
 def lean_str(s):
@@ -300,6 +301,16 @@ def run(ctx):
     ctx.l1(outdir, label="L1-llama-handler")
     ctx.classify(ctx.l2(outdir))
 
+    # (3d) two sequences in one llamarunner Server / one llama.cpp context (one batch, two output rows per call)
+    if not ctx.replay:
+        env = {"VERIF_N": ctx.scale(300, 8000), "VERIF_C14_PINNED": PINNED_FINDSTOP}
+        rc, out, outdir = ctx.go_test("./runner/llamarunner/", OV_LLAMA, "^TestVerifC14LlamaMulti$", env=env, timeout=2400)
+        if rc != 0:
+            ctx.violation("driver-failed", "", out[-1500:], no_input=True)
+        ctx.read_stats(outdir)
+        ctx.l1(outdir, label="L1-llama-multi")
+        ctx.classify(ctx.l2(outdir))
+
     # fail closed when a branch the theorems speak about was never exercised on the real code
     if not ctx.replay and not ctx.violations:
         need = ["cause_eos", "cause_limit", "cause_stopstring", "running", "branch_hold_stop_suffix",
@@ -310,12 +321,13 @@ def run(ctx):
                 "multi_reason_length", "llama_cause_eos", "llama_cause_limit", "llama_cause_stopstring",
                 "llama_reason_running", "llama_skip_calls", "llama_pending_at_end", "llama_multi_chunk",
                 "llama_f20_dropped_bytes", "llama_cachelen_cases", "llama_handler_cancelled", "llama_handler_end_at_limit",
-                "llama_handler_reason_length", "llama_handler_reason_stop"]
+                "llama_handler_reason_length", "llama_handler_reason_stop", "llama_multi_calls_with_two_sequences",
+                "llama_multi_reason_stop", "llama_multi_reason_length", "llama_multi_reason_running"]
         missing = [k for k in need if ctx.stats.get(k, 0) <= 0]
         # floors on the size of every phase (a generator that silently shrinks must not pass)
         floors = {"cases": 10000, "exhaustive_cases": 3000, "gen_invalid": 500, "gen_valid_prefix": 8000,
                   "handler_cases": 1000, "sched_cases": 400, "multi_cases": 400, "llama_loop_cases": 1500,
-                  "llama_models": 20, "llama_handler_cases": 400, "llama_gen_invalid": 100, "cachelen_cases": 5000, "llama_cachelen_cases": 1000,
+                  "llama_models": 20, "llama_handler_cases": 400, "llama_multi_pairs": 300, "llama_gen_invalid": 100, "cachelen_cases": 5000, "llama_cachelen_cases": 1000,
                   "stops_overlap_in_window": 100, "find_hit": 5000, "trunc_hit": 5000, "suffix_hit": 2000}
         missing += [f"{k}<{v}" for k, v in floors.items() if ctx.stats.get(k, 0) < v]
         if missing:
@@ -352,7 +364,8 @@ def run(ctx):
              "generator, + cancelled requests (1 500 / 60 000 cases); llamarunner loop: corpus (byte-fallback characters, chat-style stop "
              "split over tokens, limit inside a character) + every split of short texts x 9 stop sets x 3 limits + seeded random "
              "scripts (1 500 / 40 000) packed ~20 per generated GGUF model, with limit-check-only calls between tokens; cache "
-             "length at removal compared on both runners; distinct = distinct oracle command lines",
+             "length at removal compared on both runners; llamarunner handler: 400 / 6 000 requests; llamarunner with two sequences in "
+             "one context: 300 / 8 000 pairs, the second joining after 0..3 calls; distinct = distinct oracle command lines",
         explanation="Lean theorems about the model of stop.go/flushPending/processBatch's output logic; the model is tied "
                     "to the code by exact comparison with the real functions and the real processBatch loop (L1), by the "
                     "property predicates evaluated on the real loop's output (L2) and by the regenerated go/ast skeleton "
